@@ -52,6 +52,69 @@ def rule_guard(ctx, f):
                 ok = True
         ctx.check(ok, "C14-GUARD", "%s#chain-test" % b["id"], "the recursion guard does not stop a repeated key before the load: a reference cycle through typed loads recurses without bound",
                   b["span"], detail="chain.contains(&key) -> Err before push / get_or_compute")
+        # depth: the length of the chain is compared with a constant before the push (each nested load costs stack, and a file can
+        # make the chain of distinct objects as long as it likes)
+        lens = [(bi, t) for bi, t in F.calls(b) if last_seg(F.callee_name(t)) == "len" and "Vec" in F.callee_name(t) + t.get("callee_full", "")]
+        okd = False
+        for bi, t in lens:
+            tg = t.get("target")
+            if tg is None:
+                continue
+            blk = b["blocks"][tg]
+            d = t["dest"][0]
+            for st in blk["stmts"]:
+                if st[0] == "assign" and st[2][0] == "binop" and st[2][1] in ("Ge", "Gt", "Lt", "Le") and d in (F.op_local(st[2][2]), F.op_local(st[2][3])) and \
+                        (F.const_int(st[2][2]) is not None or F.const_int(st[2][3]) is not None) and blk["term"]["k"] == "switch":
+                    if all(cfg.dominates(tg, x) for x in push + load):
+                        okd = True
+        ctx.check(okd, "C14-GUARD", "%s#depth-limit" % b["id"], "nested typed loads have no depth limit: a chain of a few hundred distinct objects that load each other "
+                  "(page -> parent -> parent ...) exhausts the stack", b["span"], detail="chain.len() >= MAX -> Err before push")
+        # a failed load is re-tried only if the failure came out of the cache: the retry is dominated by a test of a flag that the
+        # compute closure sets
+        flags = set()
+        for i, j, st in F.stmts(b):
+            if st[0] == "assign" and st[2][0] == "aggregate" and st[2][1].get("k") == "closure":
+                cid = st[2][1].get("closure")
+                cb = f.bodies.get(cid)
+                if cb is None or not any(last_seg(F.callee_name(tt)) in ("resolve", "from_primitive") for _, tt in F.calls(cb)):
+                    continue
+                for op in st[2][2]:
+                    l = F.op_local(op)
+                    for dfn in (Flow(b).defs.get(l, []) if l is not None else []):
+                        if dfn[0] == "assign" and dfn[2][0] == "ref" and b["locals"][dfn[2][1][0]]["s"] == "bool":
+                            flags.add(dfn[2][1][0])
+        retries = [bi for bi, t in F.calls(b) if last_seg(F.callee_name(t)) in ("and_then", "from_primitive") and any(cfg.dominates(x, bi) for x in load)
+                   and any(last_seg(F.callee_name(t2)) == "resolve" and cfg.dominates(x2, bi) and any(cfg.dominates(l0, x2) for l0 in load) for x2, t2 in F.calls(b))]
+        okr = True
+        err_retries = []
+        for bi in retries:
+            # retries in the Ok arm (type mismatch of a cached value) are fine; those in the Err arm need the flag
+            in_err = False
+            for i, bb in enumerate(b["blocks"]):
+                tt = bb["term"]
+                if tt["k"] == "switch" and cfg.dominates(i, bi) and any(cfg.dominates(l0, i) for l0 in load):
+                    dl = F.op_local(tt["discr"])
+                    for st in bb["stmts"]:
+                        if st[0] == "assign" and st[1] == [dl] and st[2][0] == "discr" and "Result<any::AnySync" in b["locals"][st[2][1][0]]["s"]:
+                            arms = {a[0]: a[1] for a in tt["arms"]}
+                            et = arms.get(1, tt["otherwise"])
+                            if et == bi or bi in cfg.reachable_from(et, avoid={i}):
+                                okarm = arms.get(0)
+                                if okarm is None or not (okarm == bi or bi in cfg.reachable_from(okarm, avoid={i})):
+                                    in_err = True
+            if in_err:
+                err_retries.append(bi)
+                guarded = False
+                for i, bb in enumerate(b["blocks"]):
+                    tt = bb["term"]
+                    if tt["k"] == "switch" and cfg.dominates(i, bi) and F.op_local(tt["discr"]) is not None:
+                        dl = F.op_local(tt["discr"])
+                        if dl in flags or any(F.op_place(st[2][1]) and F.op_place(st[2][1])[0] in flags for st in bb["stmts"] if st[0] == "assign" and st[1] == [dl] and st[2][0] == "use"):
+                            guarded = True
+                okr = okr and guarded
+        if err_retries:
+            ctx.check(okr, "C14-GUARD", "%s#retry-once" % b["id"], "a typed load that has just failed is loaded again unconditionally: nested, every level of a failing chain "
+                      "of objects doubles the work (2^depth loads)", b["span"], detail="retry only when the error came out of the cache (flag set by the compute closure)")
 
 
 def run(ctx):
